@@ -8,7 +8,9 @@ package main
 // code is a *shallow embedding*: Go int/int64 -> Int (unbounded; wrap-around is not modelled), uintN ->
 // Int reduced modulo 2^N after every arithmetic operation and conversion, bool -> Bool, `/` and `%` ->
 // Int.tdiv / Int.tmod (truncation, as in Go), package-level tables -> List Int literals, package-level
-// mutable scalars -> extra leading parameters, *lib.Date / lib.HMS -> the structures of GoSem.lean,
+// mutable scalars -> extra leading parameters (or fixed to a value for a specialised copy), float64 -> Rat with
+// exact rational arithmetic (IEEE rounding is NOT modelled; math.Ceil / math.Floor / int(f) are the exact
+// ones), *lib.Date / lib.HMS -> the structures of GoSem.lean,
 // `if` -> if-then-else with the rest of the block duplicated into both arms, `for cond {}` ->
 // GoSem.whileFuel. Anything else (floats, closures, switch, goto, break/continue, strings, maps,
 // pointers other than the two structs) makes the *function* untranslatable: it is left out of the
@@ -46,9 +48,9 @@ const modPath = "github.com/ilius/libgostarcal"
 
 var srcUnits = []srcUnit{
 	{dir: "utils", path: modPath + "/utils", lean: "Utils", pre: "utils",
-		funcs: []string{"Mod", "Div", "Divmod", "IntMin", "IntMax", "GetHmsBySeconds"}},
+		funcs: []string{"Mod", "Div", "Divmod", "IntMin", "GetHmsBySeconds"}},
 	{dir: ".", path: modPath, lean: "Lib", pre: "lib",
-		funcs: []string{"GetTotalSeconds", "IsValid"}},
+		funcs: []string{"GetTotalSeconds", "GetFloatHour", "FloatHourToHMS"}},
 	{dir: "cal_types/julian", path: modPath + "/cal_types/julian", lean: "Julian", pre: "julian",
 		funcs: []string{"IsLeap", "getYearDays", "getMonthDayFromYdays", "ToJd", "JdTo", "GetMonthLen"}},
 	{dir: "cal_types/jalali", path: modPath + "/cal_types/jalali", lean: "Jalali", pre: "jalali",
@@ -71,6 +73,7 @@ var srcExternals = map[string]string{
 	modPath + "/cal_types/gregorian.calTypeImp.ToJd":    "SrcExt.gregorian_ToJd",
 	modPath + "/cal_types/gregorian.calTypeImp.JdTo":    "SrcExt.gregorian_JdTo",
 	modPath + ".NewDate":                                "SrcExt.lib_NewDate",
+	modPath + ".NewHMS":                                 "SrcExt.lib_NewHMS",
 }
 
 var srcStructs = map[string]string{
@@ -299,6 +302,11 @@ func isInt(ty types.Type) bool {
 	return ok && b.Info()&types.IsInteger != 0
 }
 
+func isFloat(ty types.Type) bool {
+	b, ok := ty.Underlying().(*types.Basic)
+	return ok && b.Info()&types.IsFloat != 0
+}
+
 func isBool(ty types.Type) bool {
 	b, ok := ty.Underlying().(*types.Basic)
 	return ok && b.Info()&types.IsBoolean != 0
@@ -332,6 +340,9 @@ func (t *fnTrans) leanType(ty types.Type) string {
 	}
 	if isBool(ty) {
 		return "Bool"
+	}
+	if isFloat(ty) {
+		return "Rat"
 	}
 	if s, ok := ty.Underlying().(*types.Slice); ok && isInt(s.Elem()) {
 		return "(List Int)"
@@ -369,12 +380,23 @@ func (t *fnTrans) expr(e ast.Expr) lexpr {
 	if known && tv.Value != nil {
 		switch tv.Value.Kind() {
 		case constant.Int:
+			if tv.Type != nil && isFloat(tv.Type) {
+				return lexpr{"(" + lit(tv.Value) + " : Rat)", false}
+			}
 			return lexpr{lit(tv.Value), false}
 		case constant.Bool:
 			if constant.BoolVal(tv.Value) {
 				return lexpr{"true", false}
 			}
 			return lexpr{"false", false}
+		case constant.Float:
+			// a float constant is an exact rational (29.5 = 59/2); float64 arithmetic is translated as exact
+			// rational arithmetic: IEEE rounding is NOT modelled
+			num, den := constant.Num(tv.Value), constant.Denom(tv.Value)
+			if num.Kind() != constant.Int || den.Kind() != constant.Int {
+				bail("float constant %s is not a ratio of integers", tv.Value)
+			}
+			return lexpr{"((" + lit(num) + " : Rat) / " + lit(den) + ")", false}
 		default:
 			bail("constant %s of kind %v", tv.Value, tv.Value.Kind())
 		}
@@ -418,6 +440,11 @@ func (t *fnTrans) expr(e ast.Expr) lexpr {
 			return t.expr(x.X)
 		case token.NOT:
 			return lexpr{"(!" + t.val(x.X) + ")", false}
+		case token.AND:
+			// &T{...} of a known structure: the structures are values in the translation
+			if cl, ok := x.X.(*ast.CompositeLit); ok {
+				return t.expr(cl)
+			}
 		}
 		bail("unary operator %s", x.Op)
 	case *ast.BinaryExpr:
@@ -452,6 +479,31 @@ func (t *fnTrans) expr(e ast.Expr) lexpr {
 			return lexpr{"(do if " + ls + " then pure " + short + " else " + rs + ")", true}
 		}
 		lt := info.Types[x.X].Type
+		if isFloat(lt) {
+			a, b := t.val(x.X), t.val(x.Y)
+			switch x.Op {
+			case token.ADD:
+				return lexpr{"(" + a + " + " + b + ")", false}
+			case token.SUB:
+				return lexpr{"(" + a + " - " + b + ")", false}
+			case token.MUL:
+				return lexpr{"(" + a + " * " + b + ")", false}
+			case token.QUO:
+				if rv := info.Types[x.Y]; rv.Value == nil || constant.Sign(rv.Value) == 0 {
+					bail("float division by a non-constant")
+				}
+				return lexpr{"(" + a + " / " + b + ")", false}
+			case token.LSS:
+				return lexpr{"(decide (" + a + " < " + b + "))", false}
+			case token.LEQ:
+				return lexpr{"(decide (" + a + " ≤ " + b + "))", false}
+			case token.GTR:
+				return lexpr{"(decide (" + a + " > " + b + "))", false}
+			case token.GEQ:
+				return lexpr{"(decide (" + a + " ≥ " + b + "))", false}
+			}
+			bail("operator %s on floats", x.Op)
+		}
 		if !(isInt(lt) || (isBool(lt) && (x.Op == token.EQL || x.Op == token.NEQ))) {
 			bail("operator %s on %s", x.Op, lt)
 		}
@@ -529,6 +581,13 @@ func (t *fnTrans) expr(e ast.Expr) lexpr {
 	case *ast.CallExpr:
 		// conversion
 		if ftv, ok := info.Types[x.Fun]; ok && ftv.IsType() {
+			if len(x.Args) == 1 && isFloat(ftv.Type) && isInt(info.Types[x.Args[0]].Type) {
+				return lexpr{"((" + t.val(x.Args[0]) + " : Int) : Rat)", false}
+			}
+			if len(x.Args) == 1 && isInt(ftv.Type) && isFloat(info.Types[x.Args[0]].Type) {
+				// int(f): truncation toward zero
+				return lexpr{wrap(ftv.Type, "(GoSem.ftoi "+t.val(x.Args[0])+")"), false}
+			}
 			if len(x.Args) != 1 || !isInt(ftv.Type) || !isInt(info.Types[x.Args[0]].Type) {
 				bail("conversion to %s", ftv.Type)
 			}
@@ -554,6 +613,13 @@ func (t *fnTrans) expr(e ast.Expr) lexpr {
 		fn, ok := fobj.(*types.Func)
 		if !ok || fn.Pkg() == nil {
 			bail("call of %v", x.Fun)
+		}
+		if fn.Pkg().Path() == "math" && (fn.Name() == "Ceil" || fn.Name() == "Floor") && len(x.Args) == 1 {
+			f := "Rat.ceil"
+			if fn.Name() == "Floor" {
+				f = "Rat.floor"
+			}
+			return lexpr{"((" + f + " " + t.val(x.Args[0]) + " : Int) : Rat)", false}
 		}
 		qual := fn.Pkg().Path() + "."
 		sig := fn.Type().(*types.Signature)
